@@ -20,6 +20,11 @@ pub fn build(kind: u64, rng: &mut Rng, scale: u64) -> Model {
         max_ops: 2,
         width: 0,
     };
+    let mut cfg = cfg;
+    if kind % 5 == 4 {
+        // the comb needs many convergence points pending at once: pop deep tips early
+        cfg.id_style = if kind >= 5 { IdStyle::Ascending } else { IdStyle::Random };
+    }
     let mut g = DagGen::new(cfg, rng);
     match kind % 5 {
         4 => {
@@ -98,9 +103,10 @@ pub fn build(kind: u64, rng: &mut Rng, scale: u64) -> Model {
 
 pub fn case(cs: u64, args: &Args, mons: &mut Mons, case: &Value) {
     let mut rng = Rng::new(cs);
-    let kind = (cs & 7) % 5;
-    let _ = kind;
-    let mut model = build(kind, &mut rng, args.scale.min(100));
+    // low bits of the case seed select the kind: 0..4 = the five kinds, 5 = comb with ascending ids, 6 = fan-out
+    let sel = cs & 7;
+    let kind = [0u64, 1, 2, 3, 4, 4, 1, 0][sel as usize];
+    let mut model = build(if sel == 5 { 9 } else { kind }, &mut rng, args.scale.min(100));
     let all = all_bits(&model);
     let init = model.node(0).id;
     let mut obs = Obs::default();
